@@ -46,14 +46,28 @@ def _check_graph(nodes, anc, shuffle_seed=None):
         random.Random(shuffle_seed).shuffle(items)
     variables = {n: V() for n in items}
     direct = {n: frozenset(anc[n]) for n in items}
+    import signal
+
+    class _Timeout(Exception):
+        pass
+
+    def _alarm(signum, frame):
+        raise _Timeout()
+    old_handler = signal.signal(signal.SIGALRM, _alarm)
+    signal.setitimer(signal.ITIMER_REAL, 5.0)       # the constructor is a handful of dictionary operations per edge
     try:
         dag = VariablesDAG(variables, direct_ancestors=direct)
+    except _Timeout:
+        return "the constructor does not terminate within 5 s (on a graph of at most 12 nodes)"
     except (LeaspyInputError, ValueError) as e:
         if ref[0] == "ok":
             return f"a valid definition set was refused ({type(e).__name__}: {str(e)[:60]})"
         return None
     except Exception as e:
         return f"unexpected {type(e).__name__}: {str(e)[:80]}"
+    finally:
+        signal.setitimer(signal.ITIMER_REAL, 0)
+        signal.signal(signal.SIGALRM, old_handler)
     if ref[0] == "error":
         return f"an invalid definition set ({ref[1]}) was accepted"
     reach = ref[1]
